@@ -47,6 +47,7 @@ func init() {
 			{ID: "C03-R15", Title: "mutex-guarded VM maps are copied, not aliased, into another VM: a concurrent map write is fatal (shared with C09-R5)", Floor: 2, Run: c09r5},
 			{ID: "C03-R16", Title: "fixed-size tables on the unprotected surface are indexed within their length", Floor: 1, Run: tableIndexBounded},
 			{ID: "C03-R17", Title: "recover() is called by the deferred function itself", Floor: 3, Run: recoverIsDirectlyDeferred},
+			{ID: "C03-R18", Title: "a deferred Unlock finds its mutex locked on every path (unlock of an unlocked mutex is fatal)", Floor: 5, Run: deferredUnlockFindsLockHeld},
 		},
 	})
 }
@@ -765,6 +766,13 @@ func c03r4(c *core.Ctx) {
 					}
 				}
 			}
+			// a script-supplied builtin applied to the container's elements directly (no VM frame is
+			// pushed, so nothing bounds the depth): the element may be the bound method itself
+			if pos := directBuiltinCallbackOnElements(sf); pos != token.NoPos {
+				guarded := hasReentrancyGuard(sf) || hasDepthParam(sf)
+				c.Check(guarded, "object."+nt.Obj().Name()+"."+m.Name()+"|builtin-callback-on-elements", p.Pos(pos),
+					"method "+m.Name()+" of the self-containable container "+nt.Obj().Name()+" applies a script-supplied builtin to its elements by a direct Go call: with the bound method stored in the container (l := []; m := l.map; l.append(m); m(m)) the recursion never passes through a VM frame and exhausts the native stack (fatal, unrecoverable)")
+			}
 			if !selfDispatch && !viaJSON {
 				continue
 			}
@@ -1423,4 +1431,85 @@ func madeHere(info *types.Info, fd *ast.FuncDecl, f *types.Var) bool {
 		return true
 	})
 	return found
+}
+
+// directBuiltinCallbackOnElements: sf calls the Go function stored in a *Builtin
+// (its function-typed field) that is not the receiver, passing a value that comes
+// out of a range / index over a field of the receiver.
+func directBuiltinCallbackOnElements(sf *ssa.Function) token.Pos {
+	if len(sf.Params) == 0 {
+		return token.NoPos
+	}
+	recv := sf.Params[0]
+	fromItems := func(v ssa.Value) bool {
+		return core.DependsOn(v, func(w ssa.Value) bool {
+			switch x := w.(type) {
+			case *ssa.Next:
+				return true
+			case *ssa.IndexAddr:
+				return core.DependsOn(x.X, func(y ssa.Value) bool {
+					fa, ok := y.(*ssa.FieldAddr)
+					return ok && fa.X == ssa.Value(recv)
+				})
+			}
+			return false
+		})
+	}
+	for _, b := range sf.Blocks {
+		for _, in := range b.Instrs {
+			call, ok := in.(*ssa.Call)
+			if !ok || call.Call.IsInvoke() || call.Call.StaticCallee() != nil {
+				continue
+			}
+			u, ok := call.Call.Value.(*ssa.UnOp)
+			if !ok || u.Op != token.MUL {
+				continue
+			}
+			fa, ok := u.X.(*ssa.FieldAddr)
+			if !ok || !core.IsNamed(fa.X.Type(), pkgPath("object"), "Builtin") || fa.X == ssa.Value(recv) {
+				continue
+			}
+			for _, a := range call.Call.Args {
+				if fromItems(a) {
+					return call.Pos()
+				}
+			}
+		}
+	}
+	// the same inside a function literal of the method (a `call` closure chosen by the callback's type),
+	// when the method walks its elements
+	walks := false
+	for _, b := range sf.Blocks {
+		for _, in := range b.Instrs {
+			if _, ok := in.(*ssa.Next); ok {
+				walks = true
+			}
+			if ia, ok := in.(*ssa.IndexAddr); ok && core.DependsOn(ia.X, func(y ssa.Value) bool {
+				fa, ok := y.(*ssa.FieldAddr)
+				return ok && fa.X == ssa.Value(recv)
+			}) {
+				walks = true
+			}
+		}
+	}
+	if walks {
+		for _, an := range sf.AnonFuncs {
+			for _, b := range an.Blocks {
+				for _, in := range b.Instrs {
+					call, ok := in.(*ssa.Call)
+					if !ok || call.Call.IsInvoke() || call.Call.StaticCallee() != nil {
+						continue
+					}
+					u, ok := call.Call.Value.(*ssa.UnOp)
+					if !ok || u.Op != token.MUL {
+						continue
+					}
+					if fa, ok := u.X.(*ssa.FieldAddr); ok && core.IsNamed(fa.X.Type(), pkgPath("object"), "Builtin") {
+						return call.Pos()
+					}
+				}
+			}
+		}
+	}
+	return token.NoPos
 }
